@@ -44,6 +44,7 @@ from ..cip import (
 )
 from ..const import PRIORITY, TIMEOUT_TICKS, STRUCTURE_READ_REPLY
 from ..exceptions import RequestError
+from ..util import decimal
 
 __all__ = [
     "wrap_unconnected_send",
@@ -116,13 +117,13 @@ def tag_request_path(tag, tag_info, use_instance_ids):
         if index is None:
             return None
 
-        segments += [LogicalSegment(int(idx), "member_id") for idx in index]
+        segments += [LogicalSegment(decimal(idx), "member_id") for idx in index]
 
         for attr in attrs:
             attr, index = _find_tag_index(attr)
 
             attr_segments = [DataSegment(attr)]
-            attr_segments += [LogicalSegment(int(idx), "member_id") for idx in index]
+            attr_segments += [LogicalSegment(decimal(idx), "member_id") for idx in index]
 
             segments += attr_segments
 
